@@ -218,6 +218,19 @@ def main():
             if r["verdict"] == "unsat":
                 errors.append(f"{name}: contradictory precondition / vacuous contract ({r['note']})")
 
+    # ---------------------------------------------------------------- induction lemmas: schemas checked by Lean
+    lean_map = {"tree_induction": ["tree_induction", "all_nodes_below_root"], "count-of-a-singleton-mask": ["count_singleton"], "cumsum-of-nonnegatives": ["cumsum_monotone"]}
+    used_thms = sorted({t for a in assumptions if a.startswith("assumed-lemma:") for k, ts in lean_map.items() if k in a for t in ts})
+    if used_thms and not a.no_proof:
+        ok, secs, msg = check_lean(used_thms)
+        for t in used_thms:
+            results[f"{prop}/lean/{t}"] = [dict(name=f"{prop}/lean/{t}", verdict="unsat" if ok else "unknown", backend="lean", seconds=secs / len(used_thms), model=None,
+                                                reason=msg, kind="lemma", note="induction schema checked by `lean lean/Lemmas.lean`")]
+        if ok:
+            assumptions = {(("lemma schema proved in Lean 4 (lean/Lemmas.lean), instantiated by inspection: " + x[len("assumed-lemma:"):]) if x.startswith("assumed-lemma:") and any(k in x for k in lean_map) else x) for x in assumptions}
+        else:
+            errors.append("lean lemma library does not check: " + msg)
+
     # ---------------------------------------------------------------- verdicts
     base_path = os.path.join(HERE, "baseline", f"{prop}.json")
     baseline = json.load(open(base_path)) if os.path.exists(base_path) else {"discharged": [], "sha": {}}
@@ -375,6 +388,36 @@ def main():
     if undecided:
         return 2
     return 0
+
+
+def check_lean(theorems):
+    """run Lean on the lemma library (cached per file content in the scratch directory); every named theorem must be in it"""
+    import hashlib as _h
+    import shutil
+    import subprocess
+
+    path = os.path.join(HERE, "lean", "Lemmas.lean")
+    if not os.path.exists(path):
+        return False, 0.0, "lean/Lemmas.lean missing"
+    src = open(path).read()
+    missing = [t for t in theorems if f"theorem {t} " not in src and f"theorem {t}\n" not in src]
+    if missing:
+        return False, 0.0, f"theorems not found: {missing}"
+    if "sorry" in src or "axiom " in src:
+        return False, 0.0, "lemma library contains sorry / axiom"
+    stampf = os.path.join(os.environ["VERIF_SCRATCH"], "lean-ok-" + _h.sha256(src.encode()).hexdigest()[:16])
+    if os.path.exists(stampf):
+        return True, 0.0, "cached"
+    exe = shutil.which("lean")
+    if exe is None:
+        return False, 0.0, "lean not on PATH"
+    t0 = time.time()
+    p = subprocess.run([exe, path], capture_output=True, text=True, timeout=600)
+    out = (p.stdout + p.stderr).strip()
+    if p.returncode == 0 and "error" not in out:
+        open(stampf, "w").write(out)
+        return True, time.time() - t0, "checked"
+    return False, time.time() - t0, out[:400]
 
 
 def do_replay(prop, path):
